@@ -31,6 +31,7 @@ static long g_lo = 0;   // harness-side reference: end of the last container tha
 static std::string project(UncompressedFile & u, const std::vector<long> & ret) {
     JObj o;
     o.put("lo", g_lo);
+    o.put("dem", (long) u.m_demand);
     o.putb("abort", u.m_abort);
     o.raw("data", jarr(u.m_data.begin(), u.m_data.end(), [](const std::shared_ptr<LogContainer> & c) {
         return "[" + jint((long) c->filePosition) + "," + jint((long) c->uncompressedFileSize) + "]";
@@ -89,10 +90,11 @@ int main(int argc, char ** argv) {
             } else if (op == "nextLogContainer") {
                 u.nextLogContainer();
             } else if (op == "dropOldData") {
-                size_t before = u.m_data.size();
-                long e = before ? (long) u.m_data.front()->filePosition + (long) u.m_data.front()->uncompressedFileSize : 0;
+                std::vector<long> ends;
+                for (auto & c : u.m_data) ends.push_back((long) c->filePosition + (long) c->uncompressedFileSize);
                 u.dropOldData();
-                if (u.m_data.size() != before && e > g_lo) g_lo = e;
+                size_t dropped = ends.size() - u.m_data.size();
+                if (dropped > 0 && ends[dropped - 1] > g_lo) g_lo = ends[dropped - 1];
             } else if (op == "setFileSize") {
                 u.setFileSize(arg);
             } else if (op == "setDefaultLogContainerSize") {
